@@ -13,6 +13,8 @@ import (
 	"time"
 )
 
+var slowSeq int64
+
 type Result int
 
 const (
@@ -66,6 +68,16 @@ func (s *Solver) start() error {
 		fmt.Fprintf(s.in, "(set-option :timeout %d)\n", s.Timeout.Milliseconds())
 	}
 	return nil
+}
+
+// prelude starts a fresh, non-incremental context: z3's incremental (push/pop) core is an order of
+// magnitude slower on these bit-vector queries than its default tactic, so every query is
+// self-contained after a (reset).
+func (s *Solver) prelude() string {
+	if strings.Contains(s.Bin, "z3") {
+		return fmt.Sprintf("(reset)\n(set-option :timeout %d)\n", s.Timeout.Milliseconds())
+	}
+	return "(reset)\n"
 }
 
 func (s *Solver) Close() {
@@ -130,7 +142,15 @@ func (s *Solver) roundTrip(text string) ([]string, error) {
 // returned in the same order.
 func (s *Solver) Check(tb *Table, asserts []*Term, vals []*Term) (Result, []uint64) {
 	t0 := time.Now()
-	defer func() { atomic.AddInt64(&s.Stats.Nanos, int64(time.Since(t0))) }()
+	var bodyForLog string
+	defer func() {
+		d := time.Since(t0)
+		atomic.AddInt64(&s.Stats.Nanos, int64(d))
+		if dir := os.Getenv("GOSYM_SLOW"); dir != "" && d > 3*time.Second && bodyForLog != "" {
+			n := atomic.AddInt64(&slowSeq, 1)
+			os.WriteFile(fmt.Sprintf("%s/slow-%d-%.0fs.smt2", dir, n, d.Seconds()), []byte(bodyForLog+"(check-sat)\n"), 0o644)
+		}
+	}()
 	for _, a := range asserts {
 		if a.IsFalse() {
 			atomic.AddInt64(&s.Stats.Unsat, 1)
@@ -138,10 +158,11 @@ func (s *Solver) Check(tb *Table, asserts []*Term, vals []*Term) (Result, []uint
 		}
 	}
 	body := tb.Script(asserts, vals)
+	bodyForLog = body
 	if s.Log != nil {
 		fmt.Fprintf(s.Log, "(push 1)\n%s(check-sat)\n(pop 1)\n", body)
 	}
-	lines, err := s.roundTrip("(push 1)\n" + body + "(check-sat)\n")
+	lines, err := s.roundTrip(s.prelude() + body + "(check-sat)\n")
 	res := Unknown
 	if err != nil {
 		s.LastErr = err.Error()
@@ -164,7 +185,6 @@ func (s *Solver) Check(tb *Table, asserts []*Term, vals []*Term) (Result, []uint
 	}
 	if hasErr {
 		atomic.AddInt64(&s.Stats.Errors, 1)
-		s.roundTrip("(pop 1)\n")
 		return Unknown, nil
 	}
 	var out []uint64
@@ -185,20 +205,14 @@ func (s *Solver) Check(tb *Table, asserts []*Term, vals []*Term) (Result, []uint
 		if strings.Contains(txt, "(error") {
 			s.LastErr = txt
 			atomic.AddInt64(&s.Stats.Errors, 1)
-			s.roundTrip("(pop 1)\n")
-			return Unknown, nil
+				return Unknown, nil
 		}
 		out, err = parseValues(txt, vals)
 		if err != nil {
 			s.LastErr = err.Error() + " in " + txt
 			atomic.AddInt64(&s.Stats.Errors, 1)
-			s.roundTrip("(pop 1)\n")
-			return Unknown, nil
+				return Unknown, nil
 		}
-	}
-	if _, err := s.roundTrip("(pop 1)\n"); err != nil {
-		atomic.AddInt64(&s.Stats.Errors, 1)
-		return Unknown, nil
 	}
 	switch res {
 	case Sat:
